@@ -459,6 +459,16 @@ func (k c06) Run(c *rt.Ctx) {
 	}
 }
 
+func c06BuildExecutor(q string) (pan string) {
+	defer func() {
+		if r := recover(); r != nil {
+			pan = fmt.Sprint(r)
+		}
+	}()
+	kvql.BuildExecutor(q)
+	return ""
+}
+
 func (k c06) exec(c *rt.Ctx, q string, ps []refstore.Pair, fam string, m drive.Mode, kind string) {
 	rec := c.Rec
 	st := refstore.New(ps)
@@ -488,6 +498,13 @@ func (k c06) exec(c *rt.Ctx, q string, ps []refstore.Pair, fam string, m drive.M
 	if o.Status() == "panic" {
 		c.Violation("panic", o.PanicPhase+" / "+o.Frame+" / "+panicClass(o.Panic), detail(nil))
 		return
+	}
+	if !m.Batch {
+		// the other public way from a query text to something executable: parse + filter executor
+		if pan := c06BuildExecutor(q); pan != "" {
+			c.Violation("panic", "BuildExecutor / "+panicClass(pan), detail(rt.D{"panic": pan}))
+			return
+		}
 	}
 	if st.OverBudget {
 		c.Violation("unbounded-storage-polling", "storage call budget exceeded", detail(rt.D{"calls": st.Calls(), "budget": st.MaxCalls}))
